@@ -1624,3 +1624,80 @@ def r_zipvalues(E):
     res.samples = [{"embedded_positive_examples_recognised": 1, "embedded_twins_silent": True}]
     res.floor = 10
     return res
+
+
+# ---------------------------------------------------------------------------------------------- R-CHRONO
+_CH_POSITIVE = '''
+def aligned(a, b):
+    common = a.value.index.union(b.value.index, sort=False)
+    return a.value.reindex(common, fill_value=0), b.value.reindex(common, fill_value=0)
+def merged(parts):
+    return pd.concat(parts)
+'''
+_CH_NEGATIVE = '''
+def aligned(a, b):
+    common = a.value.index.union(b.value.index)
+    return a.value.reindex(common, fill_value=0), b.value.reindex(common, fill_value=0)
+def merged(parts):
+    return pd.concat(parts).sort_index()
+def merged2(parts):
+    out = pd.concat(parts)
+    out = out.sort_index()
+    return out
+'''
+
+
+def unordered_time_indexes(tree):
+    """[(node, why)]: an hourly index put together in an order that depends on the operands — `<index>.union(other,
+    sort=False)` keeps the left operand's hours first, `pd.concat([...])` keeps the parts one after the other — and not
+    sorted again (`.sort_index()` on the result, directly or on the local it is bound to)"""
+    out = []
+    for fn in [n for n in ast.walk(tree) if isinstance(n, ast.FunctionDef)]:
+        for c in [x for x in ast.walk(fn) if isinstance(x, ast.Call) and isinstance(x.func, ast.Attribute)]:
+            if c.func.attr == "union" and any(k.arg == "sort" and isinstance(k.value, ast.Constant) and k.value.value is False
+                                              for k in c.keywords):
+                out.append((c, "index.union(…, sort=False)"))
+            if norm(c.func) in ("pd.concat", "pandas.concat"):
+                par = getattr(c, "_parent", None)
+                chained = isinstance(par, ast.Attribute) and par.attr == "sort_index"
+                later = False
+                if isinstance(par, ast.Assign) and len(par.targets) == 1 and isinstance(par.targets[0], ast.Name):
+                    nm = par.targets[0].id
+                    later = any(isinstance(y, ast.Call) and isinstance(y.func, ast.Attribute) and y.func.attr == "sort_index"
+                                and norm(y.func.value) == nm for y in ast.walk(fn))
+                if not chained and not later:
+                    out.append((c, "pd.concat(…) without sort_index()"))
+    return out
+
+
+@rule("R-CHRONO")
+def r_chrono(E):
+    pm = E.pm
+    res = RuleResult("R-CHRONO", "an hourly index assembled from two series is in chronological order whatever the order of "
+                                 "the operands: no `index.union(…, sort=False)`, no `pd.concat` left unsorted — the rows of "
+                                 "a + b and b + a would come in different orders, and what reads them by position (the first "
+                                 "cell that receives the base storage need, a cumulative sum) would give other numbers")
+    for mod, (rel, tree, src) in sorted(pm.modules.items()):
+        if not (rel.startswith("efootprint/abstract_modeling_classes") or rel.startswith("efootprint/core")):
+            continue
+        res.instances += len([c for c in ast.walk(tree) if isinstance(c, ast.Call) and isinstance(c.func, ast.Attribute)
+                              and (c.func.attr == "union" or norm(c.func) in ("pd.concat", "pandas.concat"))])
+        for c, why in unordered_time_indexes(tree):
+            fn = c
+            while fn is not None and not isinstance(fn, ast.FunctionDef):
+                fn = getattr(fn, "_parent", None)
+            q = fn.name if fn is not None else "<module>"
+            res.findings.append(Finding(
+                "R-CHRONO", f"{rel}:{q} :: {why}",
+                f"{q}: `{norm(c)[:70]}` ({why}) gives an index whose order depends on which operand comes first: the series "
+                f"holds the same value per timestamp, but a + b and b + a list the hours in different orders, and "
+                f"positional readers downstream (first cell, cumulative sums) then depend on the order in which objects "
+                f"were created or summed", rel, c.lineno, q, {"clauses": _area(rel)}))
+    pos = unordered_time_indexes(set_parents(ast.parse(_CH_POSITIVE)))
+    neg = unordered_time_indexes(set_parents(ast.parse(_CH_NEGATIVE)))
+    if len(pos) != 2 or neg:
+        raise AnalysisError(f"R-CHRONO: embedded examples: {len(pos)} of 2 positive recognised, {len(neg)} false reports")
+    res.instances += 2
+    res.samples = [{"embedded_positive_examples_recognised": 2, "embedded_twins_silent": True}]
+    res.floor = 3
+    return res
